@@ -18,7 +18,7 @@ from lib import vlib
 from lib.vlib import Infra
 
 SPEC = os.path.join(vlib.SPECS, "pool")
-COUNT = {"quick": (4, 300), "thorough": (16, 2500)}     # processes (seeds), pool lifetimes per process
+COUNT = {"quick": (4, 300), "thorough": (16, 1500)}     # processes (seeds), pool lifetimes per process
 REFUTED = {"PoolAsIsListener.cfg": "ShutdownTerminates", "PoolAsIsAbandon.cfg": "NoResultRace", "PoolAsIsAdd.cfg": "NoWaitGroupMisuse"}
 
 
